@@ -193,8 +193,14 @@ func (s Status) getError(ctxErr error, threshold, thresholdSinks int) error {
 // reports on the result.  An error will only be returned if a pipeline's delivery
 // policies could not be satisfied.
 func (b *Broker) Send(ctx context.Context, t EventType, payload interface{}) (Status, error) {
+	// The thresholds are guarded by the broker's lock, so they are read here
+	// rather than (unlocked) once the event has been processed.
+	var threshold, thresholdSinks int
 	b.lock.RLock()
 	g, ok := b.graphs[t]
+	if ok {
+		threshold, thresholdSinks = g.successThreshold, g.successThresholdSinks
+	}
 	b.lock.RUnlock()
 
 	if !ok {
@@ -208,7 +214,7 @@ func (b *Broker) Send(ctx context.Context, t EventType, payload interface{}) (St
 		Payload:   payload,
 	}
 
-	return g.process(ctx, e)
+	return g.processWithThresholds(ctx, e, threshold, thresholdSinks)
 }
 
 // Reopen calls every registered Node's Reopen() function.  The intention is to
